@@ -311,12 +311,7 @@ def rate_units(prop, model, n, vec, limit, use_t):
     def per_path(ctx, I):
         out, ts, prior = I["out"], I["teams"], I["prior"]
         tag = f"@{shape},path{I['path']}"
-        if out[0] != "return":
-            if isinstance(out[1], UncutLoop):
-                raise out[1]
-            recs.append(driver.rec(f"{prop}/{model}/rate/any-team-size/returns{tag}", "refuted", "explorer", 0, fn=fn, shape=shape,
-                                   note=repr(out[1])[:200], replay=rp_for("c01_rate")))
-            return
+        T.guard(out)
         rows_ok = isinstance(out[1], list) and len(out[1]) == n and all(isinstance(r, (T.TeamView, T.SymTeam)) and r.root is t.root for r, t in zip(out[1], ts))
         if prop == "C02":
             recs.append(driver.rec(f"C02/{model}/rate/any-team-size/result-i-lists-the-members-of-teams-i{tag}", "discharged" if rows_ok else "refuted", "explorer", 0,
